@@ -8,7 +8,7 @@ ids="$*"; [ -n "$ids" ] || ids="C01 C02 C03 C04 C05 C06 C07 C08 C09 C10 C11 C12 
 mkdir -p replays
 for c in $ids; do
   t0=$(date +%s)
-  flock "$PWD/.repo.lock" sh -c "git -C /repo status --porcelain | grep -q . && echo 'DIRTY /repo' ; ./check $c $tier" > replays/sweep-$c-$tier.log 2>&1
+  flock "$PWD/.repo.lock" sh -c "git -C /repo status --porcelain | grep -q . && echo 'DIRTY /repo' ; ./check $c --tier $tier" > replays/sweep-$c-$tier.log 2>&1
   rc=$?
   echo "$c $tier exit=$rc $(( $(date +%s) - t0 ))s :: $(grep -E '^(OK|VIOLATION|BROKEN|DIRTY)' replays/sweep-$c-$tier.log | head -3 | cut -c1-200 | tr '\n' '|')"
 done
